@@ -25,6 +25,13 @@ ASSUMPTIONS = ["DTensor.from_local(chunk, mesh, [Shard(0)]) with explicit shape/
 NONTRIVIAL_FLOOR = 10
 
 
+def _sorted_columns(perm: list, R: int, S: int) -> list:
+    """A device mesh with the global ranks placed in a non-default order, but with every replicate-dimension column ascending: meshes whose
+    replicate groups are *not* ascending are the open finding F11 (excluded by construction, kept visible by a probe)."""
+    cols = [sorted(perm[j::S]) for j in range(S)]
+    return [cols[j][i] for i in range(R) for j in range(S)]
+
+
 def _strategy(maxW: int):
     from hypothesis import strategies as st
 
@@ -60,7 +67,8 @@ def _strategy(maxW: int):
                 steps.append(st_)
         return {"flavour": fl, "R": R, "S": S, "G": G, "comm_params": draw(st.booleans()), "comm_dtype": draw(st.sampled_from(["default", "fp32", "fp16", "bf16"])),
                 "cfg": cfg, "shapes": shapes, "pseed": draw(st.integers(0, 10**5)), "steps": steps, "repair": True,
-                "pdtypes": ([draw(st.sampled_from(["bf16", "f32", "f32"])) for _ in shapes] if (draw(st.integers(0, 5)) == 0 and cfg["pdtype"] in ("f32", "bf16")) else None)}
+                "pdtypes": ([draw(st.sampled_from(["bf16", "f32", "f32"])) for _ in shapes] if (draw(st.integers(0, 5)) == 0 and cfg["pdtype"] in ("f32", "bf16")) else None),
+                "mesh_perm": (_sorted_columns(draw(st.permutations(list(range(R * S)))), R, S) if (R * S > 1 and fl in ("hsdp", "hybrid_shard") and draw(st.integers(0, 3)) == 0) else None)}
 
     return case()
 
@@ -159,6 +167,9 @@ def c06_base() -> dict:
 
 
 PROBES = {
+    "F11": ("worlds", {"flavour": "hybrid_shard", "R": 4, "S": 1, "G": 2, "comm_params": False, "comm_dtype": "default", "cfg": c06_base(),
+                       "shapes": [[4, 4], [4, 4], [3]], "pseed": 1, "steps": [{"gseed": 3, "gkind": "gauss", "gscale": 1.0, "mask": [True, True, True]}],
+                       "repair": True, "mesh_perm": [0, 3, 2, 1], "probe": "F11"}),
     "F5": ("worlds", {"flavour": "hybrid_shard", "R": 2, "S": 1, "G": -1, "comm_params": False, "comm_dtype": "default", "cfg": c06_base(),
                       "shapes": [[4, 4], [4, 4]], "pseed": 1,
                       "steps": [{"gseed": 3, "gkind": "gauss", "gscale": 1.0, "mask": [True, True]}, {"gseed": 3, "gkind": "gauss", "gscale": 1.0, "mask": [True, False]}],
